@@ -1,0 +1,65 @@
+//go:build verif
+
+package digest
+
+// Contracts and spec functions for the verification machinery in /verif (build tag
+// "verif"; not part of the default build). Spec functions are pure, loop-free Go: they
+// are translated to SMT definitions by /verif/gvc and compiled for counterexample replay.
+
+// SpecCrc16Bit is one shift/xor round of CRC-16/XMODEM (poly 0x1021, MSB first).
+func SpecCrc16Bit(crc uint16) uint16 {
+	if crc&0x8000 != 0 {
+		return crc<<1 ^ 0x1021
+	}
+	return crc << 1
+}
+
+// SpecCrc16Step folds one input byte into the CRC, bit by bit.
+func SpecCrc16Step(crc uint16, b byte) uint16 {
+	return SpecCrc16Bit(SpecCrc16Bit(SpecCrc16Bit(SpecCrc16Bit(SpecCrc16Bit(SpecCrc16Bit(SpecCrc16Bit(SpecCrc16Bit(crc ^ uint16(b)<<8))))))))
+}
+
+// SpecCrc16 is CRC-16/XMODEM (init 0, no reflection, no final xor) of s[0:n].
+func SpecCrc16(s string, n int) uint16 {
+	if n <= 0 {
+		return 0
+	}
+	return SpecCrc16Step(SpecCrc16(s, n-1), s[n-1])
+}
+
+// SpecFirstIndex is the first index i >= from with s[i] == c, or len(s) if there is none.
+func SpecFirstIndex(s string, c byte, from int) int {
+	if from >= len(s) {
+		return len(s)
+	}
+	if s[from] == c {
+		return from
+	}
+	return SpecFirstIndex(s, c, from+1)
+}
+
+// SpecHashSlot is Redis Cluster's HASH_SLOT (cluster.c keyHashSlot): CRC16 of the bytes
+// between the first '{' and the first following '}' when that substring is non-empty,
+// otherwise of the whole key, modulo 16384.
+func SpecHashSlot(key string) uint16 {
+	s := SpecFirstIndex(key, '{', 0)
+	if s == len(key) {
+		return SpecCrc16(key, len(key)) & 16383
+	}
+	e := SpecFirstIndex(key, '}', s+1)
+	if e == len(key) || e == s+1 {
+		return SpecCrc16(key, len(key)) & 16383
+	}
+	return SpecCrc16(key[s+1:e], e-s-1) & 16383
+}
+
+//@ func Crc16
+//@   arith bv
+//@   properties C11
+//@   nopanic
+//@   opaque SpecCrc16Step
+//@   ensures crc_spec: result == SpecCrc16(buf, len(buf))
+//@   loop 1:
+//@     invariant bounds: 0 <= i && i <= len(buf)
+//@     invariant prefix: crc == SpecCrc16(buf, i)
+//@   assert after store crc: table_step [reveal=SpecCrc16Step hide=SpecCrc16]: crc == SpecCrc16Step(SpecCrc16(buf, i), buf[i])
